@@ -1,7 +1,7 @@
 /-
 Oracle/C18.lean — line-protocol oracle for property C18 (core only; compiled to `oracle_c18`).
 
-  auth <path> <sasl> <env items> <expect ok|any> => <journal>;<result>;<closed>
+  auth <path> <sasl> <env items> <expect ok|err|any> => <journal>;<result>;<closed>
       model  = Model/Auth.lean replaying the recorded environment events (trace acceptance: `reject@i`
                names the first event the model cannot take), printed in the implementation's format
       holds  = Spec.Sasl.orderHolds on the IMPLEMENTATION's journal  ∧  (a failure event in the script ⇒
@@ -125,7 +125,9 @@ def step (line : String) : String :=
               (result != "ok" || (!failed && closed == "0")) &&
               (result == "ok" || result.startsWith "err") &&
               -- right credentials and no failure placed anywhere ⇒ the exchange completes
-              (expect != "ok" || result == "ok")
+              (expect != "ok" || result == "ok") &&
+              -- a broker that forged the SCRAM server signature ⇒ the dial fails (mutual authentication)
+              (expect != "err" || result.startsWith "err")
             | none => false
           | _ => false
         answer model holds
